@@ -50,12 +50,14 @@ impl Svc for Gated {
     async fn bidi(&self, _r: Request<Streaming<Vec<u8>>>) -> Result<Response<BoxStream>, Status> { Err(Status::unimplemented("unused")) }
 }
 
-struct Incoming { rx: tokio::sync::mpsc::UnboundedReceiver<(u64, Shim)>, log: Rec }
+struct Incoming { rx: tokio::sync::mpsc::UnboundedReceiver<Result<(u64, Shim), i32>>, log: Rec }
 impl tokio_stream::Stream for Incoming {
     type Item = Result<Shim, std::io::Error>;
     fn poll_next(mut self: Pin<&mut Self>, cx: &mut std::task::Context<'_>) -> std::task::Poll<Option<Self::Item>> {
         match self.rx.poll_recv(cx) {
-            std::task::Poll::Ready(Some((c, io))) => { self.log.ev(json!({"e":"taken","c":c})); std::task::Poll::Ready(Some(Ok(io))) }
+            std::task::Poll::Ready(Some(Ok((c, io)))) => { self.log.ev(json!({"e":"taken","c":c})); std::task::Poll::Ready(Some(Ok(io))) }
+            // a non-transient accept error (e.g. EMFILE): the accept loop logs it and goes on
+            std::task::Poll::Ready(Some(Err(code))) => { self.log.ev(json!({"e":"accept_error","code":code})); std::task::Poll::Ready(Some(Err(std::io::Error::from_raw_os_error(code)))) }
             std::task::Poll::Ready(None) => std::task::Poll::Ready(None),
             std::task::Poll::Pending => std::task::Poll::Pending,
         }
@@ -112,7 +114,7 @@ pub fn run(stim: &Value, rec: &Rec) {
                     // the server's half goes into the incoming stream now; the client's half is connected at the next barrier
                     let c = st["c"].as_u64().unwrap();
                     let (c_io, s_io, _d) = Shim::pair(65536, rq, wq, pend);
-                    if let Some(tx) = &tx { let _ = tx.send((c, s_io)); }
+                    if let Some(tx) = &tx { let _ = tx.send(Ok((c, s_io))); }
                     pending.push((c, c_io));
                 }
                 "send" => {
@@ -139,6 +141,7 @@ pub fn run(stim: &Value, rec: &Rec) {
                 }
                 "fire" => { if let Some(t) = sig_tx.take() { let _ = t.send(()); } }
                 "end_incoming" => { tx.take(); }
+                "accept_error" => { if let Some(tx) = &tx { let _ = tx.send(Err(24)); } }
                 "age" => { tokio::time::sleep(Duration::from_millis(AGE_MS)).await; }
                 "wait" => { tokio::time::sleep(Duration::from_millis(st["ms"].as_u64().unwrap_or(1000))).await; }
                 "release" => { h.gate(st["k"].as_u64().unwrap() as u8).add_permits(1); }
